@@ -52,7 +52,8 @@ GI_SCOPE = {
     "C07": [(T + "session.py", "handle_tls_record|extract_.*_buf|set_client_and_server_ports|get_tls_records"), (T + "output_builder.py", None), (Q + "quic_output_builder.py", None),
             (T + "packet.py", None), (T + "dpkt_dsb.py", "__init__|__iter__"), (Q + "quic_session.py", "handle_frame|handle_crypto_frame|build_output|set_server_client_address|handle_packet")],
     "C08": [(T + "session.py", "get_tls_records|extract_.*_buf|handle_tls_record|handle_packet|decrypt"), (T + "main.py", "handle_packet|handle_quic_packet|run"),
-            (Q + "quic_session.py", "handle_packet|handle_quic_packet|handle_frame|handle_crypto_frame|build_output"), (Q + "quic_output_builder.py", None)],
+            (Q + "quic_session.py", "handle_packet|handle_quic_packet|handle_frame|handle_crypto_frame|build_output"), (Q + "quic_output_builder.py", None),
+            (T + "output_builder.py", None)],
     "C09": [(T + "keylog_reader.py", None), (T + "dpkt_dsb.py", "__init__|__iter__"), (T + "main.py", "handle_packet|handle_quic_packet|run"), (T + "packet.py", None),
             (T + "session.py", "find_session_secrets|generate_keys"), (Q + "quic_session.py", "set_tls_decryptors")],
     "C10": [(T + "main.py", None), (T + "output_builder.py", "__init__"), (Q + "quic_output_builder.py", "__init__"), (T + "session.py", "set_client_and_server_ports"),
@@ -94,6 +95,12 @@ def LSI_for(pid):
     return f
 
 
+def HI_for(pid):
+    f = partial(guards.rule_HI, scope=GI_SCOPE[pid])
+    f.__name__ = "rule_HI"
+    return f
+
+
 def WSI_for(pid):
     f = partial(guards.rule_WSI, scope=GI_SCOPE[pid])
     f.__name__ = "rule_WSI"
@@ -105,23 +112,23 @@ def B2_for(*mods):
 
 
 prop("C01",
-     lambda tier: [tables.rule_T1, GI_for("C01"), WSI_for("C01"), LDI_for("C01"), LSI_for("C01"), STALE_for("C01"), tls.rule_A5, B1_for("decryptor", "session"), tables.rule_T4, tables.rule_T3_classes, tables.rule_T3_iv, tls.rule_types, tls.rule_A4, tls.rule_PAD,
+     lambda tier: [tables.rule_T1, GI_for("C01"), WSI_for("C01"), LDI_for("C01"), LSI_for("C01"), HI_for("C01"), STALE_for("C01"), tls.rule_A5, B1_for("decryptor", "session"), tables.rule_T4, tables.rule_T3_classes, tables.rule_T3_iv, tls.rule_types, tls.rule_A4, tls.rule_PAD,
                    tls.rule_T10, tls.rule_D1, output.rule_A8, tcp.rule_tls_causality, output.rule_T7_split, output.rule_A7, B2_for("output_builder", "session"),
-                   tcp.rule_framing, tcp.rule_A9, tcp.rule_full_scans, tcp.rule_A6a, output.rule_packet_fields, kdf.rule_T5_tls, kdf.rule_B4, state.rule_D6_ownership],
+                   tcp.rule_framing, tcp.rule_A9, tcp.rule_full_scans, tcp.rule_A6a, output.rule_packet_fields, kdf.rule_T5_tls, kdf.rule_B4, state.rule_D6_ownership, escape.rule_A1_records],
      "Decides the necessary structure of per-record state and dispatch: sequence number read/increment pairing, CBC residue chaining from ciphertext, RC4 contexts "
      "created once, key switch at Finished assigning key+IV+seq of one direction (A5); direction arms are mirror images (B1); decrypt() dispatch equals the record "
      "protection of every valid (version, bulk) pair, by finite-domain guard evaluation (T4); parser/decryptor/IV-length tables agree (T3); record / handshake type "
      "constants (T4t); fail-closed gate (A4); TLS 1.3 padding strip (PAD); ClientHello/ServerHello layouts by symbolic cursor and version decision vs the enum (T10); "
      "only decrypt results reach the payload (D1); records appended and consumed in processing order, every packet buffered and extracted unconditionally (A8, CAUS); "
-     "framing / dedupe / full scans (FR, A9, A6a, FS); Packet field binding (PKT); key names and argument roles (T5t, B4); state ownership (D6a); builder order and "
+     "framing / dedupe / full scans (FR, A9, A6a, FS); a fault in one released record stays inside the record loop, so every released record is handled exactly once and the release list is cleared (A1r); Packet field binding (PKT); key names and argument roles (T5t, B4); state ownership (D6a); builder order and "
      "re-split (A7, T7s, B2). Does not decide AEAD/CBC/RC4 arithmetic inside "
      "the cryptography library nor MAC/padding lengths (unit tests cover those at sequence number 0).",
      ["cryptography's AEAD / CBC / ARC4 implementations"], controls=["c01-drop-seq-increment"])
 
 prop("C02",
-     lambda tier: [kdf.rule_B4, pkn.rule_E1, GI_for("C02"), WSI_for("C02"), LDI_for("C02"), LSI_for("C02"), STALE_for("C02"), frames.rule_varint, quic.rule_D8, quic.rule_T5_quic, quic.rule_T9_aad, quic.rule_T9_hp, quic.rule_epoch, quic.rule_D7b, quic.rule_frame_attrs,
+     lambda tier: [kdf.rule_B4, pkn.rule_E1, GI_for("C02"), WSI_for("C02"), LDI_for("C02"), LSI_for("C02"), HI_for("C02"), STALE_for("C02"), frames.rule_varint, quic.rule_D8, quic.rule_T5_quic, quic.rule_T9_aad, quic.rule_T9_hp, quic.rule_epoch, quic.rule_D7b, quic.rule_frame_attrs,
                    B1_for("quic.quic_session", "quic.quic_dissector", "quic.quic_decryptor", "quic.quic_tls_parser", "quic.quic_output_builder"),
-                   pkn.rule_pn_spaces, progress.rule_A2, quic.rule_itermut, frames.rule_T8, state.rule_attr_kinds, tcp.rule_full_scans, quic.rule_crypto_reassembly, kdf.rule_T6_quic, quic.rule_quic_handshake_state],
+                   pkn.rule_pn_spaces, progress.rule_A2, quic.rule_itermut, frames.rule_T8, state.rule_attr_kinds, tcp.rule_full_scans, quic.rule_crypto_reassembly, kdf.rule_T6_quic, quic.rule_quic_handshake_state, state.rule_D6_ownership],
      "Decides: output grouping merges frames only within one input datagram and emits closed groups with their own time/direction (D8); key-name agreement producer → "
      "dissector/session with role and epoch, list positions of QuicDecryptor keys, decryptor per packet type (T5q); AAD = header in wire order per header form, nonce "
      "construction (T9a); header-protection constants (T9h); key-phase epoch rule (EPO); connection-ID matching only on non-empty IDs, CID learning (D7b); frame "
@@ -133,7 +140,7 @@ prop("C02",
      ["cryptography's AEAD implementations; struct.unpack_from semantics"], controls=["c02-merge-without-ts"])
 
 prop("C03",
-     lambda tier: [tables.rule_T2, tables.rule_T4, tls.rule_A5, pcapng.rule_T9_pcapng, GI_for("C03"), WSI_for("C03"), LDI_for("C03"), LSI_for("C03"), STALE_for("C03"), escape.rule_A1, escape.rule_A1_records, escape.rule_A1_quic_packets, progress.rule_A2, tls.rule_A4, tls.rule_D1, state.rule_D6_ownership,
+     lambda tier: [tables.rule_T2, tables.rule_T4, tls.rule_A5, pcapng.rule_T9_pcapng, GI_for("C03"), WSI_for("C03"), LDI_for("C03"), LSI_for("C03"), HI_for("C03"), STALE_for("C03"), escape.rule_A1, escape.rule_A1_records, escape.rule_A1_quic_packets, quic.rule_itermut, progress.rule_A2, tls.rule_A4, tls.rule_D1, state.rule_D6_ownership,
                    tcp.rule_framing, B2_for("session"), state.rule_attr_kinds, mirror.rule_B3_match, quic.rule_D7b],
      "Decides 'never makes the run fail' as an interprocedural may-raise analysis: every site of classes S1–S6 (raise, index/key lookup, non-total external call, "
      "possibly-unbound local, attribute not set by every constructor path, data-dependent division) reachable from an iteration of run()'s capture loop or "
@@ -144,7 +151,7 @@ prop("C03",
      ["the whitelist of total callables printed in vt/rules/escape.py"], controls=["c03-narrow-handler"])
 
 prop("C04",
-     lambda tier: [keylog.rule_E2_pipeline, checksum.rule_A6b, cli.rule_D4, GI_for("C04"), WSI_for("C04"), LDI_for("C04"), LSI_for("C04"), STALE_for("C04"), state.rule_D6_ownership, mirror.rule_B3_match, keylog.rule_D7, quic.rule_D7b, cli.rule_A6c, mirror.rule_B3_bind, escape.rule_A1,
+     lambda tier: [keylog.rule_E2_pipeline, checksum.rule_A6b, cli.rule_D4, GI_for("C04"), WSI_for("C04"), LDI_for("C04"), LSI_for("C04"), HI_for("C04"), STALE_for("C04"), state.rule_D6_ownership, mirror.rule_B3_match, keylog.rule_D7, quic.rule_D7b, cli.rule_A6c, mirror.rule_B3_bind, escape.rule_A1,
                    state.rule_attr_kinds, output.rule_packet_fields, kdf.rule_B4],
      "Decides: per-flow classes keep all state on the instance — no class-level mutable attributes, mutable defaults, global writes, shared key list never mutated by "
      "flow code (D6a); both match predicates test the full 4-tuple in both orientations (B3); secrets are selected by client-random equality on normalised case (D7); "
@@ -153,7 +160,7 @@ prop("C04",
      ["none beyond the trusted base"], controls=["c04-drop-port-conjunct"])
 
 prop("C05",
-     lambda tier: [checksum.rule_udp_zero, checksum.rule_pseudo_header, output.rule_packet_fields, checksum.rule_fold_bound, GI_for("C05"), WSI_for("C05"), LDI_for("C05"), LSI_for("C05"), STALE_for("C05"), tcp.rule_A9, tcp.rule_A6a, tcp.rule_framing, tcp.rule_tls_causality, B2_for("session"), B1_for("session"),
+     lambda tier: [checksum.rule_udp_zero, checksum.rule_pseudo_header, output.rule_packet_fields, checksum.rule_fold_bound, GI_for("C05"), WSI_for("C05"), LDI_for("C05"), LSI_for("C05"), HI_for("C05"), STALE_for("C05"), tcp.rule_A9, tcp.rule_A6a, tcp.rule_framing, tcp.rule_tls_causality, B2_for("session"), B1_for("session"),
                    tcp.rule_D9_seq, tcp.rule_expected_seq, state.rule_D6_ownership],
      "Decides the structural necessary conditions of segmentation-independence: per-direction duplicate suppression pairing (A9), empty segments "
      "never reach the dedupe (A6a), framing loops make progress and release records only when whole (loop-replay lemma), record slice and buffer "
@@ -162,7 +169,7 @@ prop("C05",
      ["dpkt delivers tcp.seq / tcp.data as parsed"], controls=["c05-dedupe-wrong-list"])
 
 prop("C06",
-     lambda tier: [tls.rule_D1, GI_for("C06"), WSI_for("C06"), LDI_for("C06"), LSI_for("C06"), tcp.rule_framing, output.rule_D3, output.rule_A7, output.rule_T7_split, B2_for("output_builder"), output.rule_A8, escape.rule_A1, tcp.rule_full_scans],
+     lambda tier: [tls.rule_D1, GI_for("C06"), WSI_for("C06"), LDI_for("C06"), LSI_for("C06"), HI_for("C06"), tcp.rule_framing, output.rule_D3, output.rule_A7, output.rule_T7_split, B2_for("output_builder"), output.rule_A8, escape.rule_A1, tcp.rule_full_scans],
      "Decides: everything that reaches the writer is an Ether/IP(v4|v6 per session)/TCP|UDP[/Raw] composition without length/checksum overrides, empty sessions "
      "contribute nothing, writer loop shape (D3); handshake before data, SYN/SYN-ACK/ACK numbers, per-part seq/ack bookkeeping order (A7); record re-split telescopes "
      "from 0 to the end with ts[i] per part (T7s); data builders mirror (B2); channels append-only (A8); finalisation loops contained (A1). Does not decide that "
@@ -170,7 +177,7 @@ prop("C06",
      ["scapy packet building; dpkt.pcapng.Writer"], controls=["c06-ack-before-increment"])
 
 prop("C07",
-     lambda tier: [pcapng.rule_E3, GI_for("C07"), WSI_for("C07"), LDI_for("C07"), LSI_for("C07"), tls.rule_D1, output.rule_D2, tcp.rule_framing, mirror.rule_B3_bind, B2_for("output_builder", "session"), B1_for("quic.quic_output_builder", "output_builder"),
+     lambda tier: [pcapng.rule_E3, GI_for("C07"), WSI_for("C07"), LDI_for("C07"), LSI_for("C07"), HI_for("C07"), tls.rule_D1, output.rule_D2, tcp.rule_framing, mirror.rule_B3_bind, B2_for("output_builder", "session"), B1_for("quic.quic_output_builder", "output_builder"),
                    quic.rule_D8, output.rule_D3, mirror.rule_B3_match, output.rule_A7, tcp.rule_full_scans, pcapng.rule_T9_pcapng, cli.rule_D4, output.rule_packet_fields],
      "Decides: timestamps flow without arithmetic from the reader's (ts, buf) pair through Packet.timestamp / record.metadata resp. QuicPacket.ts to the emitted "
      "(frame, ts) pairs; handshake time = first record's first packet (D2); a record is attributed to exactly the packets overlapping its byte range (FR overlap); "
@@ -179,8 +186,8 @@ prop("C07",
      ["dpkt timestamp conversion"], controls=["c07-handshake-time-last"])
 
 prop("C08",
-     lambda tier: [frames.rule_T8, keylog.rule_E2_pipeline, GI_for("C08"), WSI_for("C08"), LDI_for("C08"), LSI_for("C08"), STALE_for("C08"), tcp.rule_tls_causality, output.rule_A8, tcp.rule_framing, escape.rule_A1_records, quic.rule_D8, output.rule_A7, output.rule_T7_split,
-                   B2_for("output_builder", "session"), escape.rule_A1, tcp.rule_full_scans, state.rule_D6_ownership, tcp.rule_A9],
+     lambda tier: [frames.rule_T8, keylog.rule_E2_pipeline, GI_for("C08"), WSI_for("C08"), LDI_for("C08"), LSI_for("C08"), HI_for("C08"), STALE_for("C08"), tcp.rule_tls_causality, output.rule_A8, tcp.rule_framing, escape.rule_A1_records, quic.rule_D8, output.rule_A7, output.rule_T7_split,
+                   B2_for("output_builder", "session"), escape.rule_A1, tcp.rule_full_scans, state.rule_D6_ownership, tcp.rule_A9, tls.rule_D1, quic.rule_frame_attrs],
      "Decided as the classical argument for online algorithms — every stage is causal, append-only and a left fold, hence the export of a prefix is a prefix of the "
      "export — each premise being a structural obligation: single in-order pass without look-ahead (CAUS), append-only channels consumed in order (A8), records released "
      "only when whole and buffers cleared (FR + loop-replay lemma), a fault in record i cannot discard output of records < i (A1r), QUIC groups closed exactly at "
@@ -189,7 +196,7 @@ prop("C08",
      ["C18 (determinism) assumed"], controls=["c08-lookahead"])
 
 prop("C09",
-     lambda tier: [state.rule_D6_ownership, kdf.rule_T6, GI_for("C09"), WSI_for("C09"), LDI_for("C09"), LSI_for("C09"), keylog.rule_E2_grammar, keylog.rule_E2_pipeline, keylog.rule_E2_cli, keylog.rule_D7, pcapng.rule_T9_pcapng, tcp.rule_full_scans, pcapng.rule_E3],
+     lambda tier: [state.rule_D6_ownership, kdf.rule_T6, GI_for("C09"), WSI_for("C09"), LDI_for("C09"), LSI_for("C09"), HI_for("C09"), keylog.rule_E2_grammar, keylog.rule_E2_pipeline, keylog.rule_E2_cli, keylog.rule_D7, pcapng.rule_T9_pcapng, tcp.rule_full_scans, pcapng.rule_E3, state.rule_D6_nondet],
      "Decides: the key-log line pattern (parsed with re._parser) admits both hex cases and every label literal the consumers compare against, rejects "
      "comments/blank lines (E2a); CR is removed before splitting, file and DSB secrets share one parser and one Key construction site, DSB payloads are "
      "ingested under ts == -1 before any dispatch, the TLS secret lookup is reachable only from finalisation (E2b); -s defaults to None (E2c); secrets are "
@@ -197,35 +204,35 @@ prop("C09",
      ["dpkt's block classes parse option lists correctly"], controls=["c09-label-too-long"])
 
 prop("C10",
-     lambda tier: [state.rule_D6_ownership, tcp.rule_full_scans, mirror.rule_B3_match, GI_for("C10"), WSI_for("C10"), LDI_for("C10"), LSI_for("C10"), cli.rule_D4, cli.rule_A6c, mirror.rule_B3_bind, state.rule_D6_reinit, output.rule_A7, B2_for("output_builder"), quic.rule_D8],
+     lambda tier: [state.rule_D6_ownership, tcp.rule_full_scans, mirror.rule_B3_match, GI_for("C10"), WSI_for("C10"), LDI_for("C10"), LSI_for("C10"), HI_for("C10"), cli.rule_D4, cli.rule_A6c, mirror.rule_B3_bind, state.rule_D6_reinit, output.rule_A7, B2_for("output_builder"), quic.rule_D8],
      "Decides that configuration reaches every site: option table, int conversions, -m ⇒ keep_original_ports False, every server-port rewrite in both "
      "builders is control-dependent on that flag and the flag's provenance at every construction site is args.keep_original_ports, mapped/default port "
      "choice, client port never written (D4); Session creation dominated by the server-port membership test (A6c); the side whose port is a server port "
      "becomes the server (B3b).", ["argparse semantics"], controls=["c10-rewrite-unconditional"])
 
 prop("C11",
-     lambda tier: [GI_for("C11"), WSI_for("C11"), LDI_for("C11"), LSI_for("C11"), checksum.rule_fold_bound, checksum.rule_pseudo_header, checksum.rule_A3_packet, checksum.rule_A6b, B2_for("checksums"), checksum.rule_udp_zero],
+     lambda tier: [GI_for("C11"), WSI_for("C11"), LDI_for("C11"), LSI_for("C11"), HI_for("C11"), checksum.rule_fold_bound, checksum.rule_pseudo_header, checksum.rule_A3_packet, checksum.rule_A6b, B2_for("checksums"), checksum.rule_udp_zero],
      "Decides: fold loop exits only with a 16-bit value and folds with >>16/&0xFFFF (FOLD); pseudo-header field order/widths for IPv4/IPv6 and "
      "checksum-field offsets TCP 16:18 / UDP 6:8 (T9c); every Packet attribute a routine reads exists in all Packet variants its call-site guard admits "
      "(A3); dispatch dominated by the verdict, verdict True without -c (A6b); TCP/UDP twins mirror (B2); a computed UDP checksum of zero is compared as 0xffff, in "
      "the UDP routine only (UDPZ). Does not decide the arithmetic identity itself.", ["dpkt exposes ip.p / ip.nxt / tcp.sum / udp.sum as parsed"], controls=["c11-fold-off-by-one"])
 
 prop("C12",
-     lambda tier: [GI_for("C12"), WSI_for("C12"), LDI_for("C12"), LSI_for("C12"), output.rule_D2, pcapng.rule_E3, pcapng.rule_T9_pcapng, tcp.rule_full_scans],
+     lambda tier: [GI_for("C12"), WSI_for("C12"), LDI_for("C12"), LSI_for("C12"), HI_for("C12"), output.rule_D2, pcapng.rule_E3, pcapng.rule_T9_pcapng, tcp.rule_full_scans, keylog.rule_E2_pipeline],
      "Decides: every byte-order-dependent choice in the pcapng reader is `XLE if le else X` / '<'+f / '>'+f with the same X / f, the flag is set from the "
      "matching magic, block type ↔ block class agreement (E3); if_tsresol decoding constants, identical EPB/PB timestamp expression, unconditional block "
      "consumption before type dispatch (unknown blocks skipped), reader selection by -l (T9p). Does not decide dpkt's own classes.",
      ["dpkt.pcapng / dpkt.pcap block classes"], controls=["c12-swap-le-class"])
 
 prop("C13",
-     lambda tier: [tcp.rule_full_scans, GI_for("C13"), WSI_for("C13"), LDI_for("C13"), LSI_for("C13"), meta.rule_D5, quic.rule_D8, quic.rule_frame_attrs, output.rule_A8],
+     lambda tier: [tcp.rule_full_scans, GI_for("C13"), WSI_for("C13"), LDI_for("C13"), LSI_for("C13"), HI_for("C13"), meta.rule_D5, quic.rule_D8, quic.rule_frame_attrs, output.rule_A8],
      "Decides the effect set of the metadata switch: every statement control-dependent on it (post-dominator based edge dominance) only appends to the output "
      "channel (TLS) or selects CRYPTO/VN bytes (QUIC); application-record handlers, alert/handshake handling and the STREAM selection are not control-dependent "
      "on it; metadata records are appended verbatim; the switch's provenance is args.metadata.", ["none beyond the trusted base"],
      controls=["c13-stream-under-meta"])
 
 prop("C14",
-     lambda tier: [kdf.rule_T6, kdf.rule_T7_keyblock, quic.rule_T9_hp, kdf.rule_B4, GI_for("C14"), WSI_for("C14"), LDI_for("C14"), LSI_for("C14"), tables.rule_T1, tables.rule_T2, tables.rule_T3_classes],
+     lambda tier: [kdf.rule_T6, kdf.rule_T7_keyblock, quic.rule_T9_hp, kdf.rule_B4, GI_for("C14"), WSI_for("C14"), LDI_for("C14"), LSI_for("C14"), HI_for("C14"), tables.rule_T1, tables.rule_T2, tables.rule_T3_classes],
      "Static decision of the suite table: (T1) each of the code-point rows of the dict literal equals the IANA row of an independent "
      "registry copy; (T2) the 12-line resolver loop is read structurally (first-match in sub-table order, defaults, AES→GCM/CCM fix-up, "
      "MAC default) and every table name is resolved under exactly those semantics from the ordered literal sub-tables and compared "
@@ -237,7 +244,7 @@ prop("C14",
      controls=["c14-sha-before-sha256"])
 
 prop("C15",
-     lambda tier: [tls.rule_types, keylog.rule_E2_pipeline, GI_for("C15"), WSI_for("C15"), LDI_for("C15"), LSI_for("C15"), STALE_for("C15"), kdf.rule_T6, kdf.rule_T7_keyblock, kdf.rule_T5_tls, quic.rule_T5_quic, kdf.rule_B4, tables.rule_T3_iv, quic.rule_T9_hp, tcp.rule_full_scans, quic.rule_epoch, quic.rule_quic_handshake_state],
+     lambda tier: [tls.rule_types, keylog.rule_E2_pipeline, GI_for("C15"), WSI_for("C15"), LDI_for("C15"), LSI_for("C15"), HI_for("C15"), STALE_for("C15"), kdf.rule_T6, kdf.rule_T7_keyblock, kdf.rule_T5_tls, quic.rule_T5_quic, kdf.rule_B4, tables.rule_T3_iv, quic.rule_T9_hp, tcp.rule_full_scans, quic.rule_epoch, quic.rule_quic_handshake_state],
      "Decides: every HKDF-Expand call site (TLS 1.3: 8, QUIC: 18 + Initial 6 + key update 6) derives the key/iv/hp of the role and epoch of the key-log label it is "
      "guarded by, with the RFC label bytes, declared lengths and output lengths; Initial keys independent of the negotiated suite; PRF labels, seed orders per purpose "
      "and PRF hash selection (T6); key block partitioned into consecutive gap-free slices MAC_c, MAC_s, key_c, key_s, IV_c, IV_s, by polynomial normal forms (T7k); "
@@ -247,14 +254,14 @@ prop("C15",
      ["cryptography's HKDF / HMAC / hash implementations"], controls=["c15-swap-randoms"])
 
 prop("C16",
-     lambda tier: [quic.rule_D7b, quic.rule_T9_aad, GI_for("C16"), WSI_for("C16"), LDI_for("C16"), LSI_for("C16"), STALE_for("C16"), pkn.rule_E1, pkn.rule_D9_pkn, pkn.rule_pn_spaces, B1_for("quic.quic_session"), quic.rule_T9_hp],
+     lambda tier: [quic.rule_D7b, quic.rule_T9_aad, GI_for("C16"), WSI_for("C16"), LDI_for("C16"), LSI_for("C16"), HI_for("C16"), STALE_for("C16"), pkn.rule_E1, pkn.rule_D9_pkn, pkn.rule_pn_spaces, B1_for("quic.quic_session"), quic.rule_T9_hp],
      "Decides that get_full_packet_number *is* RFC 9000 A.3: the function is reduced by forward substitution to a decision tree over (largest, truncated, "
      "encoded length) and compared, in a linear/bitwise normal form, with the appendix (E1); integer-exact arithmetic (D9); per-direction tables, "
      "0-RTT/1-RTT share a space (PNS); direction arms mirror (B1). Does not decide histories (largest is updated before authentication).",
      ["the normaliser's rewrite rules (commutativity, x<<k = x*2^k, 2^e//2 = 2^(e-1))"], controls=["c16-le-to-lt"])
 
 prop("C17",
-     lambda tier: [GI_for("C17"), WSI_for("C17"), LDI_for("C17"), LSI_for("C17"), STALE_for("C17"), frames.rule_T8, frames.rule_varint, progress.rule_A2, escape.rule_A1_quic_packets],
+     lambda tier: [GI_for("C17"), WSI_for("C17"), LDI_for("C17"), LSI_for("C17"), HI_for("C17"), STALE_for("C17"), frames.rule_T8, frames.rule_varint, progress.rule_A2, escape.rule_A1_quic_packets],
      "Decides: registry keys are disjoint and cover RFC 9000 §19 types 0x00–0x1e and RFC 9221 0x30/0x31 with the right classes; for each of the 20 field-carrying "
      "classes and each type-bit path a symbolic cursor walk of the constructor shows every field is read exactly at the cursor, varint length/decoding paired, byte "
      "strings sized by their own length field (or rest of packet), and the frame length equals the end of the last field — compared with the RFC layout table (T8); "
@@ -263,7 +270,7 @@ prop("C17",
      ["RFC 9000 §19 / RFC 9221 §4 layout table in the checker"], controls=["c17-missing-field"])
 
 prop("C18",
-     lambda tier: [GI_for("C18"), WSI_for("C18"), LDI_for("C18"), LSI_for("C18"), state.rule_D6_reinit, state.rule_D6_nondet, state.rule_D6_paths, state.rule_D6_ownership, state.rule_D6_outfile, output.rule_A8, state.rule_attr_kinds],
+     lambda tier: [GI_for("C18"), WSI_for("C18"), LDI_for("C18"), LSI_for("C18"), HI_for("C18"), state.rule_D6_reinit, state.rule_D6_nondet, state.rule_D6_paths, state.rule_D6_ownership, state.rule_D6_outfile, output.rule_A8, state.rule_attr_kinds, cli.rule_D4],
      "Decides the absence of nondeterminism sources in the code reachable from run(): no hash/id/random/time/env/cwd calls, no order-sensitive iteration "
      "over sets (D6b), no cwd-relative implicit input (D6c), every module-level mutable object run() mutates is re-initialised by run() before use (D6r), "
      "reset from a fresh value and not from an alias of the mutated object (D6r), no shared mutable class/module state in flow classes (D6a), the output path is opened "
